@@ -534,6 +534,49 @@ func c03Concurrent(c C03Case, sb *ServiceBinding, mb MethodBinding, cm reflect.V
 			}
 		}
 	}
+	if c.BigRet {
+		// a storm of pipelined calls with large results of their own: every caller gets a result that
+		// some handler invocation produced, and no two callers the same one
+		const workers, perWorker = 8, 4
+		storm := make([][]string, workers)
+		errs := make([]string, workers)
+		var swg sync.WaitGroup
+		for w := 0; w < workers; w++ {
+			swg.Add(1)
+			go func(w int) {
+				defer swg.Done()
+				for k := 0; k < perWorker; k++ {
+					in := append([]reflect.Value{reflect.ValueOf(frugal.NewFContext("").SetTimeout(20 * time.Second))}, first[1:]...)
+					o := cm.Call(in)
+					if e := o[len(o)-1]; !e.IsNil() {
+						errs[w] = fmt.Sprint(e.Interface())
+						return
+					}
+					if o[0].Kind() == reflect.String {
+						storm[w] = append(storm[w], o[0].String())
+					} else {
+						storm[w] = append(storm[w], string(o[0].Bytes()))
+					}
+				}
+			}(w)
+		}
+		swg.Wait()
+		for w, e := range errs {
+			if e != "" {
+				return ev.Failf("call-failed:concurrent", "%s: pipelined call of worker %d failed: %s%s", what, w, e, ctxText())
+			}
+		}
+		bigMu.Lock()
+		defer bigMu.Unlock()
+		for w, l := range storm {
+			for k, got := range l {
+				if !bigProduced[got] {
+					return ev.Failf("return-mismatch:concurrent", "%s: with %d callers pipelining calls, call %d of worker %d got a %d byte result (%.40q...) that no handler invocation returned, or that another caller got as well%s", what, workers, k, w, len(got), got, ctxText())
+				}
+				delete(bigProduced, got)
+			}
+		}
+	}
 	return nil
 }
 
